@@ -398,6 +398,7 @@ class FixedOpts:
         self.lit_cross = 50      # percent: let literals cross column 72 when wrap == 72
         self.lit_pad = 0         # percent: pad before a literal so that it straddles column 72
         self.trail_blanks = 0    # percent of physical lines that get 1-8 trailing blanks (blank lines: blanks only)
+        self.semis = 0           # percent chance of joining an unlabelled statement to the previous one by ';'
         self.allow_amp_end = False   # only when the caller sets the source form explicitly (a line ending in '&'
         #                              makes the auto-detector choose free form)
         self.excl = set()
@@ -420,31 +421,59 @@ def fixed_layout(flat, rnd, opts):
         lines.append(c)
         lay.comments.append((len(lines), c, "full"))
 
+    cur = None            # physical line under construction (kept open for a possible ';' join)
+    group = []            # uids of the statements sharing the current logical line
+    group_first = None
+    can_join = False
+
+    def close_group():
+        nonlocal cur, group, group_first
+        if cur is not None:
+            lines.append(cur)
+            for u in group:
+                lay.span[u] = (group_first, len(lines))
+            cur, group, group_first = None, [], None
+
     for st, depth in flat:
-        if opts.blank_lines and r.chance(opts.blank_lines):
-            lines.append("")
-        if opts.comments and r.chance(opts.comments):
-            for _ in range(r.n(1, 2)):
-                comment()
         toks = stmt_tokens(st)
-        # label field
-        if st.label:
-            lab = st.label
-            pad = 5 - len(lab)
-            left = r.n(0, pad)
-            field = " " * left + lab + " " * (pad - left)
-            lay.features.add("label")
+        unit_edge = st.block is not None and st.block.unit and st.role in ("open", "close")
+        join = (cur is not None and can_join and opts.semis and not st.label and not unit_edge
+                and r.chance(opts.semis))
+        if join:
+            sep = r.pick(["; ", ";", " ; ", ";;", "; "])
+            if len(cur) + len(sep) + len(toks[0][1]) + (len(st.cname) + 3 if st.cname else 0) > W:
+                join = False
+        if join:
+            cur += sep
+            lay.features.add("semi")
         else:
-            field = "     "
-        head = field + " "
-        ind = (r.n(0, 4) if opts.extra_indent else 0)
-        cur = head + " " * ind
+            close_group()
+            if opts.blank_lines and r.chance(opts.blank_lines):
+                lines.append("")
+            if opts.comments and r.chance(opts.comments):
+                for _ in range(r.n(1, 2)):
+                    comment()
+            # label field
+            if st.label:
+                lab = st.label
+                pad = 5 - len(lab)
+                left = r.n(0, pad)
+                field = " " * left + lab + " " * (pad - left)
+                lay.features.add("label")
+            else:
+                field = "     "
+            head = field + " "
+            ind = (r.n(0, 4) if opts.extra_indent else 0)
+            cur = head + " " * ind
+            group_first = len(lines) + 1
+        group.append(st.uid)
+        own_first = len(lines) + 1
+        can_join = not unit_edge
         if st.cname:
             cur += st.cname + r.pick([":", ": ", " : "])
             lay.features.add("cname")
             if st.label:
                 lay.features.add("label_and_cname")
-        first = len(lines) + 1
         nline = 0
         prev = None
         for kind, t in toks:
@@ -507,8 +536,7 @@ def fixed_layout(flat, rnd, opts):
                     if nline >= 2:
                         lay.features.add("cont2")
             prev = txt
-        lines.append(cur)
-        lay.span[st.uid] = (first, len(lines))
-        lay.own[st.uid] = lay.span[st.uid]
+        lay.own[st.uid] = (own_first, len(lines) + 1)
+    close_group()
     _trailing_blanks(r, lay, opts)
     return lay
